@@ -1,3 +1,4 @@
+pub mod css;
 pub mod data;
 pub mod expr;
 pub mod wxml;
